@@ -89,6 +89,16 @@ def make_plan(seed: int, tier: str, index: int) -> dict[str, Any]:
         small = g.random() < 0.6
     doc = gen.gen_doc(g, headers=headers, small=small)
     doc["unknown"] = []
+    if index % 16 == 8:
+        # a file well above the default buffer sizes, dense with multi-byte characters, so that
+        # any hand-rolled chunked reading/decoding meets a boundary inside a character
+        t = 0
+        for _ in range(g.randint(400, 900)):
+            t += g.choice([0, 1, 7])
+            doc["events"].append([doc["events"][-1][0] + t if doc["events"] else t,
+                                  g.choice(["lyric", "section", "text"]),
+                                  g.choice(["歌née", "née", "歌歌歌", "é", "x歌", "日本語 の 歌詞"])])
+        doc["events"].sort(key=lambda e: e[0])
     # sections with identical or empty bodies are legal and make header->key mix-ups visible
     # that distinct contents would hide
     if len(doc["tracks"]) >= 2:
@@ -361,6 +371,7 @@ def execute(plan: dict[str, Any]) -> dict[str, Any]:
     probes["seam_bypassed"] = max(0, by_path - len(fs.opened))
     probes["opens_through_seam"] = len(fs.opened)
     probes["all_40_headers_in_one_doc"] = 1 if len(doc["tracks"]) == 40 else 0
+    probes["file_above_16KiB"] = 1 if any(len(v["text"]) > 16384 for v in plan["variants"]) else 0
     world.drain_log()
     import shutil
 
